@@ -209,6 +209,8 @@ def check(ctx):
                     and norm(arg(inc, None, "amount")) == norm(n.target.elts[1])
         ctx.ob("C15.P4", f"{tot.short}/amount", okc, loc(tot), "amount = multiplicity of the scope among the Call nodes" if okc else "announced amount is not the multiplicity of the scope")
     ctx.floor("C15.P3", "running/finished brackets", n_br, 2)
+    from .evalrules import rule_totals
+    ctx.run(lambda c_: rule_totals(c_, "C15.P4", rr))
     from .extra import rule_error_path_total
     ctx.run(rule_error_path_total, "C15.P3")
     ctx.run(E.rule_atomic_counter, "C15.P3", er)
